@@ -16,7 +16,9 @@ import (
 func faultKindsFor(kind string) []sim.FaultSpec {
 	switch {
 	case kind == "fio.WriteFile":
-		return []sim.FaultSpec{{Kind: "eio"}, {Kind: "enospc"}, {Kind: "short", Arg: 7}}
+		// the last one: the file stays unwritable for the rest of the transaction (its fallback and
+		// undo writes to the same path fail as well)
+		return []sim.FaultSpec{{Kind: "eio"}, {Kind: "enospc"}, {Kind: "short", Arg: 7}, {Kind: "eio", Times: 4, Path: true}}
 	case kind == "fio.ReadFile", kind == "fio.ReadDir", kind == "fio.Stat":
 		return []sim.FaultSpec{{Kind: "eio"}}
 	case kind == "fio.Remove", kind == "fio.RemoveAll":
@@ -50,7 +52,7 @@ func genC07Program(r *rand.Rand) *Case {
 	c := &Case{Seed: r.Uint64(), Policy: "seq", HashMod: pick(r, 1, 4, 250)}
 	shape := r.IntN(6)
 	ns := 1
-	if shape == 5 {
+	if shape == 5 || r.IntN(4) == 0 {
 		ns = 2
 	}
 	for i := 0; i < ns; i++ {
@@ -152,6 +154,9 @@ func oracleC07(c *Case, res *Result) []Violation {
 	fk, fop := "none", ""
 	if len(res.Sim.Fired) > 0 {
 		fk = res.Sim.Fired[0].Kind
+		if res.Sim.Fired[0].Path {
+			fk += "-path"
+		}
 		fop = res.Sim.Fired[0].Match
 		if i := strings.IndexByte(fop, ' '); i > 0 {
 			fop = fop[:i]
